@@ -60,6 +60,7 @@ func C15(p *load.Prog, r *oblig.Run) {
 		entries = append(entries, f)
 	}
 	runE1(p, r, "R15", entries, linTolerated(p), 40)
+	recoverObligations(p, r, "R15", entries, 1)
 
 	c15Errors(p, r)
 	c15Work(p, r)
@@ -164,6 +165,7 @@ func C14(p *load.Prog, r *oblig.Run) {
 		entries = append(entries, p.MustFunc(load.PkgCmd, n))
 	}
 	runE1(p, r, "R14", entries, linTolerated(p), 100)
+	recoverObligations(p, r, "R14", entries, 1)
 }
 
 // rootParam: v is a parameter, or a load of a local that only ever holds a
